@@ -119,7 +119,8 @@ def _gen_setups(rng: random.Random, dom: str) -> list:
             out = [f"bp:fea:{rng.choice(objs)}:{rng.choice('12')}"]
         return out
     if dom == "tsp":
-        return rng.choice([["tsp:ea"], ["tsp:fea"], ["tsp:ea", "tsp:fea"]])
+        return rng.choice([["tsp:ea"], ["tsp:fea"], ["tsp:ea", "tsp:fea"],
+                           ["tsp:feah"], ["tsp:ea", "tsp:feah"]])
     if dom == "atsp":
         return ["atsp:rls"]
     if dom == "ttp":
@@ -149,7 +150,9 @@ def generate(rng: random.Random, batch: dict) -> dict:
         else:
             instances = rng.sample(pool, rng.choice([1, 2]))
     else:
-        instances = rng.sample(pool, 1 if heavy else rng.choice([1, 1, 2]))
+        classes = jobs.instance_classes(dom)
+        k = 1 if heavy else min(len(classes), rng.choice([1, 2, 2, 3]))
+        instances = [rng.choice(c) for c in rng.sample(classes, k)]
     if dom == "dcs":
         budget = rng.choice([4, 5, 6])   # >= warm-up + a few model rounds
     elif dom == "dc":
@@ -257,7 +260,9 @@ def directed(tier: str) -> list:
     for dom, setups, insts, budget in (
             ("tsp", ["tsp:ea", "tsp:fea"], ["tsp:burma14", "tsp:gr17"], 100),
             ("ttp", ["ttp:rls", "ttp:rs"], ["ttp:circ4", "ttp:nl6"], 80),
-            ("qap", ["qap:rls", "qap:rs"], ["qap:nug12"], 80),
+            ("qap", ["qap:rls", "qap:rs"],
+             ["qap:nug12", "qap:lipa20a", "qap:tai12b", "qap:bur26a"], 80),
+            ("tsp", ["tsp:feah"], ["tsp:cn11", "tsp:ulysses16"], 100),
             ("ttpmo", ["ttpmo:rls", "ttpmo:nsga2"], ["ttpmo:circ6"], 60),
             ("atsp", ["atsp:rls"], ["atsp:br17", "atsp:p43"], 60)):
         docs.append({"domain": dom, "setups": setups, "instances": insts,
